@@ -1,7 +1,7 @@
 (* C15 — elicitation rules learn values only by asking, within their query budget. Statements only. *)
 From Coq Require Import ZArith QArith List Bool Lia.
 Import ListNotations.
-From SCK Require Import ElicitM ElicitRun ElicitEval ElicitBS ElicitRules ElicitBudget.
+From SCK Require Import ElicitM ElicitRun ElicitEval ElicitBS ElicitRules ElicitBudget ElicitBudget2.
 Local Open Scope Z_scope.
 
 (* Every rule is a query program: it can read the valuation only through Ask. For EVERY program, memoising
@@ -41,5 +41,22 @@ Theorem C15_threshold_rule_budget : forall fixer V P k tau init a vt est',
   Z.of_nat (acnt a est') <= 1 + Z.of_nat k * Z.log2_up m /\ NoDup (trace est') /\ cnt est' = length (trace est').
 Proof. exact thr_rule_budget. Qed.
 Print Assumptions C15_threshold_rule_budget.
-(* NOT proved for all inputs (checked per case): the same bound for the two-sided rule (its extra question at the found
-   position is always a repeated one), exactly lambda for lambda-PRV, at most 2 for Match-TwoQueries. *)
+
+(* each side of the two-sided rule (byquery = true): its extra question at the found position is always answered from
+   the table, so the bound is the same *)
+Theorem C15_two_sided_rule_budget : forall fixer V P k tau init a vt est',
+  let m := Z.of_nat (length (nth 0 P [])) in 1 <= m ->
+  run true fixer V (thr_rule P k tau true init) einit = (vt, est') ->
+  Z.of_nat (acnt a est') <= 1 + Z.of_nat k * Z.log2_up m.
+Proof. exact double_side_budget. Qed.
+Print Assumptions C15_two_sided_rule_budget.
+
+(* lambda-PRV forwards at most lambda questions to each voter, Match-TwoQueries at most 2 to each agent *)
+Theorem C15_prv_budget : forall fixer V P lam a sc est',
+  run true fixer V (prvP P lam) einit = (sc, est') -> (acnt a est' <= lam)%nat.
+Proof. exact prv_budget. Qed.
+Print Assumptions C15_prv_budget.
+Theorem C15_match_two_queries_budget : forall fixer V P eps a vt est',
+  run true fixer V (m2qP P eps) einit = (vt, est') -> (acnt a est' <= 2)%nat.
+Proof. exact m2q_budget. Qed.
+Print Assumptions C15_match_two_queries_budget.
